@@ -164,6 +164,11 @@ func GenSQL(t *rapid.T, o *SQLOpts) *Spec {
 		}
 		sg.defs.Decls = append(single, grouped...)
 		o.class("decl:grouped_table_structs")
+		if len(grouped) > 0 && rapid.Bool().Draw(t, "groupDoc") {
+			// a plain comment above the `type (` line: every struct keeps the directives of its own comment
+			grouped[0].GroupDoc = []string{"the tables of this model"}
+			o.class("decl:comment_above_type_group")
+		}
 	}
 	if sg.helperRaw.Len() > 0 {
 		sg.other.Raw = sg.helperRaw.String()
@@ -367,6 +372,57 @@ func (sg *sqlGen) ensurePayload() (name string, hasUnion bool) {
 			for _, f := range ti.d.Fields {
 				if f.Name == "Valid" {
 					f.Name = "IsValid"
+				}
+			}
+		}
+		if rapid.IntRange(0, 4).Draw(sg.t, "nestedBothWays") == 0 {
+			// the two nestings of a fixed array and a slice over one element type, in one document
+			has := map[string]bool{}
+			for _, f := range ti.d.Fields {
+				has[f.Name] = true
+			}
+			if !has["GridA"] && !has["GridB"] {
+				e := Basic(sg.pick("nestedElem", []string{"int", "string", "bool", "float64"}))
+				n := rapid.IntRange(1, 3).Draw(sg.t, "nestedLen")
+				ti.d.Fields = append(ti.d.Fields, &Field{Name: "GridA", Type: Array(n, Slice(e))}, &Field{Name: "GridB", Type: Slice(Array(n, e))})
+				sg.o.class("json:fixed_array_and_slice_nested_both_ways")
+			}
+		}
+		if rapid.IntRange(0, 2).Draw(sg.t, "memberBeforeUnion") == 0 {
+			// a union member used on its own before the union that contains it, in one document
+			var us []*tinfo
+			for _, x := range g.types {
+				if x.cat == "union" && x.pkg == sg.root {
+					us = append(us, x)
+				}
+			}
+			has := map[string]bool{}
+			for _, f := range ti.d.Fields {
+				has[f.Name] = true
+			}
+			if len(us) > 0 && !has["Preferred"] && !has["Shapes"] {
+				u := us[rapid.IntRange(0, len(us)-1).Draw(sg.t, "mbuUnion")]
+				var members []string
+				if ur := sg.spec.Unions()[sg.root.Path][u.d.Name]; ur != nil {
+					for _, m := range ur.Members {
+						if _, md := sg.spec.Resolve(sg.root, Ref(sg.root.Path, m)); md != nil && md.Kind == KStruct {
+							members = append(members, m)
+						}
+					}
+				}
+				if len(members) > 0 {
+					m := members[rapid.IntRange(0, len(members)-1).Draw(sg.t, "mbuMember")]
+					ti.d.Fields = append([]*Field{{Name: "Preferred", Type: Ref(sg.root.Path, m)}}, ti.d.Fields...)
+					// (anonymous slices of unions are refused by gounions: the slice is a named type)
+					for k := range g.used(sg.root) {
+						sg.used[k] = true
+					}
+					ln := sg.fresh(u.d.Name + "Seq")
+					g.used(sg.root)[ln] = true
+					sg.defs.Decls = append(sg.defs.Decls, &Decl{Kind: KNamed, Name: ln, Type: Slice(Ref(sg.root.Path, u.d.Name))})
+					ti.d.Fields = append(ti.d.Fields, &Field{Name: "Shapes", Type: Ref(sg.root.Path, ln)})
+					ti.hasUnion = true
+					sg.o.class("json:union_member_used_before_its_union")
 				}
 			}
 		}
